@@ -114,7 +114,7 @@ Lemma add_dir_abs st h st1 y :
   add_dir st (new_dir h) = (st1, y) -> snew_dir (abs st) = (abs st1, y).
 Proof. intros [= <- <-]. unfold snew_dir, abs; cbn. now rewrite map_app, map_length. Qed.
 
-Lemma abs_tick st : abs (tick st) = mkSS (ss_dirs (abs st)) (ss_leaves (abs st)) (S (ss_clock (abs st))).
+Lemma abs_tick k st : abs (tick k st) = mkSS (ss_dirs (abs st)) (ss_leaves (abs st)) k.
 Proof. reflexivity. Qed.
 
 Lemma abs_clock st : ss_clock (abs st) = st_clock st.
